@@ -137,6 +137,7 @@ class Inliner:
                 self.children.setdefault(b["parent"], []).append(b["def"])
         self.counter = 0
         self.spliced = set()
+        self.closure_inlined = set()
         self.log = []
         self.cand = self._candidates()
 
@@ -376,6 +377,46 @@ class Inliner:
             elif ct["k"] == "resume" and isinstance(t.get("unwind"), int):
                 caller["blocks"][j]["term"] = {"k": "goto", "target": t["unwind"], "span": ct["span"]}
         blk["term"] = {"k": "goto", "target": bbase, "span": span, "inlined": callee["def"]}
+        return newb
+
+    def _inline_closure_call(self, caller, k):
+        """`FnOnce::call_once(closure_value, (a, b, c))` where the closure type is (after substituting the generic parameters
+        of a spliced-in helper) a closure of this crate taken by value: the closure body is spliced in like a helper -
+        parameter 1 is the closure value, the other parameters are the fields of the argument tuple. This is what makes a
+        private helper that is generic over a closure (`on_helper_thread(msg, |rt, actor, msg| rt.block_on(..))`)
+        transparent. Returns the new nested bodies, or None if the call is not of that form."""
+        t = caller["blocks"][k]["term"]
+        fn = t.get("fn") or {}
+        if not (fn.get("def") or "").endswith("FnOnce::call_once") or len(t["args"]) != 2 or not fn.get("targs"):
+            return None
+        cty = self.d["types"][fn["targs"][0]]
+        if not isinstance(cty, dict) or cty.get("k") != "closure" or cty.get("def") not in self.raw:
+            return None
+        callee = self.raw[cty["def"]]
+        if callee.get("def_kind") != "Closure" or callee.get("layout") or callee.get("coroutine") or callee["def"] == caller["def"]:
+            return None
+        env_ty = self.d["types"][callee["locals"][1]["ty"]] if len(callee["locals"]) > 1 else None
+        if not isinstance(env_ty, dict) or env_ty.get("k") != "closure":
+            return None          # environment taken by reference (Fn / FnMut shim): not handled
+        tup = t["args"][1].get("move") or t["args"][1].get("copy")
+        if tup is None or tup["p"]:
+            return None
+        blk = caller["blocks"][k]
+        n0 = len(callee["blocks"])
+        lm, bm, lbase, bbase, newb = self._splice(caller, callee, None, None, None)
+        span = t["span"]
+        blk["stmts"].append({"k": "assign", "place": {"l": lbase + 1, "p": []}, "rv": {"use": t["args"][0]}, "span": span})
+        for i in range(callee.get("arg_count", 1) - 1):
+            blk["stmts"].append({"k": "assign", "place": {"l": lbase + 2 + i, "p": []}, "rv": {"use": {"move": {"l": tup["l"], "p": [i]}}}, "span": span})
+        for j in range(bbase, bbase + n0):
+            ct = caller["blocks"][j]["term"]
+            if ct["k"] == "return":
+                caller["blocks"][j]["stmts"].append({"k": "assign", "place": t["dest"], "rv": {"use": {"move": {"l": lbase, "p": []}}}, "span": ct["span"]})
+                caller["blocks"][j]["term"] = {"k": "goto", "target": t["target"], "span": ct["span"]} if t.get("target") is not None else {"k": "unreachable", "span": ct["span"]}
+            elif ct["k"] == "resume" and isinstance(t.get("unwind"), int):
+                caller["blocks"][j]["term"] = {"k": "goto", "target": t["unwind"], "span": ct["span"]}
+        blk["term"] = {"k": "goto", "target": bbase, "span": span, "inlined": callee["def"]}
+        self.closure_inlined.add(callee["def"])
         return newb
 
     def _coroutine_ctor(self, outer):
@@ -807,6 +848,32 @@ class Inliner:
             if not changed:
                 break
         bodies.extend(b for b in extra if b not in bodies)
+        # closures handed to a spliced-in generic helper and called there
+        for _ in range(3):
+            more = []
+            for body in list(bodies):
+                i = 0
+                touched = False
+                while i < len(body["blocks"]):
+                    t = body["blocks"][i]["term"]
+                    if t["k"] == "call" and t.get("fn") and (t["fn"].get("def") or "").endswith("FnOnce::call_once") and body.get("inlined_from"):
+                        nb = self._inline_closure_call(body, i)
+                        if nb is not None:
+                            more += nb
+                            touched = True
+                            self.log.append((body["def"], "closure", "call_once"))
+                    i += 1
+                if touched:
+                    for _ in range(6):
+                        n_ = self._fold_const_switches(body)
+                        self._blank_unreachable(body)
+                        if not n_:
+                            break
+                    self._thread_known_variants(body)
+                    self._blank_unreachable(body)
+            bodies.extend(b for b in more if b not in bodies)
+            if not more:
+                break
         # remove helper families that are no longer referenced
         refs = set()
         for b in bodies:
@@ -847,6 +914,8 @@ class Inliner:
         for b in bodies:
             if b["def"] in self.spliced and b["def"] not in allrefs:
                 removed |= set(self._family(b["def"]))
+        for c in self.closure_inlined:       # called (FnOnce: once) where it was spliced in; the value itself stays an aggregate
+            removed |= set(self._family(c))
         self.d["bodies"] = [b for b in bodies if b["def"] not in removed]
         self.removed = removed
         return self.log
